@@ -1,7 +1,90 @@
-import VermouthModel.Proto
-open Proto
+import VermouthModel.C19
+import Generated.C19Table
+open Proto C19
 
-/-- placeholder driver for C19: replaced when the model is written -/
-def handle (_ : Unit) (_ : List Tok) : Unit × String := ((), "bad-op")
+def optStrOf (t : Tok) : Option (Option Str) := do
+  let o ← t.optStr?
+  pure (o.map String.toList)
+
+def encS (s : Str) : String := encStr (String.ofList s)
+def encOS : Option Str → String
+  | some s => encS s
+  | none => "-"
+
+def atomOf (t : Tok) : Option Atom := do
+  match ← t.list? with
+  | [k, ch, rid, rn, ic] =>
+    pure { key := ← k.int?, res := { chain := ← optStrOf ch, resid := ← rid.optInt?, resname := ← optStrOf rn,
+                                     icode := ← optStrOf ic }, mods := [], muts := [] }
+  | _ => none
+
+def edgeOf (t : Tok) : Option (Int × Int) := do
+  match ← t.list? with
+  | [a, b] => pure (← a.int?, ← b.int?)
+  | _ => none
+
+def molOf (t : Tok) : Option Mol := do
+  match ← t.list? with
+  | [as, es] => pure { atoms := ← (← as.list?).mapM atomOf, edges := ← (← es.list?).mapM edgeOf }
+  | _ => none
+
+def pairOf (t : Tok) : Option (Str × Str) := do
+  match ← t.list? with
+  | [a, b] => pure ((← a.str?).toList, (← b.str?).toList)
+  | _ => none
+
+def specOf (t : Tok) : Option Spec := do
+  match ← t.list? with
+  | [ch, rn, rid, ic] => pure { chain := ← optStrOf ch, resname := ← optStrOf rn, resid := ← rid.optInt?,
+                                icode := ← optStrOf ic }
+  | _ => none
+
+def encKind : Kind → String
+  | .modification => encStr "modification"
+  | .mutation => encStr "mutation"
+
+def encSpec (s : Spec) : String :=
+  encList [encOS s.chain, encOS s.resname, encOptInt s.resid, encOS s.icode]
+
+def encMol (m : Mol) : String :=
+  encList (m.atoms.map fun a => encList [encInt a.key, encList (a.mods.map encS), encList (a.muts.map encS)])
+
+def encErr : Option Err → String
+  | none => "ok"
+  | some (.nameError k t) => "nameerror " ++ encKind k ++ " " ++ encS t
+  | some .keyError => "keyerror"
+
+def handle (_ : Unit) (toks : List Tok) : Unit × String :=
+  let r : Option String :=
+    match toks with
+    | [Tok.str "parse", s] => do
+        match parseSpec (← s.str?).toList with
+        | .ok sp => pure ("ok " ++ encSpec sp)
+        | .valueError => pure "valueerror"
+    | [Tok.str "format", s] => do
+        pure (encS (formatSpec (← specOf s)))
+    | [Tok.str "rmatch", s, m] => do
+        let sp ← specOf s
+        let mol ← molOf m
+        pure (encList (mol.atoms.map fun a => encBool (residueMatches C19Table.proteinResidues sp mol a.res)))
+    | [Tok.str "run", mods, muts, mlib, blib, mols] => do
+        let mods ← (← mods.list?).mapM pairOf
+        let muts ← (← muts.list?).mapM pairOf
+        let lib : Lib := { protein := C19Table.proteinResidues,
+                           modifications := (← strs? mlib).map String.toList,
+                           blocks := (← strs? blib).map String.toList }
+        let mols ← (← mols.list?).mapM molOf
+        match parseRequests mods, parseRequests muts with
+        | some pm, some pt =>
+          let res := runSystem lib pm pt mols
+          pure (encErr res.err ++ " " ++ encList (res.mols.map encMol) ++ " " ++
+                encList (res.reports.map fun rp => encList [encS rp.mutmod, encKind rp.kind, encS rp.post]))
+        | _, _ => pure "valueerror"
+    | [Tok.str "cli", nt, given] => do
+        let g ← (← given.list?).mapM pairOf
+        let b ← nt.nat?
+        pure (encList ((cliModifications (b != 0) g).map fun p => encList [encS p.1, encS p.2]))
+    | _ => none
+  ((), r.getD "bad-op")
 
 def main : IO Unit := runDriver handle ()
